@@ -26,7 +26,7 @@ def case(rng):
             return Call(Var(f), [Num(uniq()) for _ in range(ar)])
         if objs and c < 0.9:
             o, cl = r.choice(objs)
-            return Call(Prop(Var(o), 'get'), []) if r.random() < 0.6 else Prop(Var(o), 'v')
+            return Call(Prop(Var(o), r.choice(['get', 'get', 'alt', 'neg'])), []) if r.random() < 0.6 else Prop(Var(o), 'v')
         return Num(uniq())
 
     def probe():
@@ -70,6 +70,8 @@ def case(rng):
             else:
                 init = Fn('init', [], [ExprS(Assign(Prop(Self(), 'v'), Num(uniq())))])
                 methods = [Fn('get', [], [Return(Bin('+', At('v'), Num(1)))]),
+                           Fn('alt', [], [Return(Bin('*', At('v'), Num(3)))]),
+                           Fn('neg', [], [Return(Bin('-', Num(0), At('v')))]),
                            Fn('bump', [], [ExprS(OpAssign(Prop(Self(), 'v'), '+', Num(1))), Return(At('v'))])]
             entries.append({'kind': 'ok', 'stmts': [Class(name, parent, init, methods)]})
             classes.append(name)
@@ -102,7 +104,25 @@ def case(rng):
             entries.append({'kind': 'compile_error', 'text': text})
             entries.append(probe())
             tags.add('bad:' + kind)
-        elif c < 0.82:
+        elif c < 0.80 and objs:
+            # an entry that first defines a function with invoke/property sites and then fails: the definition made
+            # before the error stays usable, and later entries get fresh sites
+            name = 'g%d' % uniq()
+            o, cl = r.choice(objs)
+            meth = r.choice(['get', 'alt', 'neg'])
+            body = [Return(Bin('+', Call(Prop(Var('x'), meth), []), Prop(Var('x'), 'v')))]
+            fail = r.choice([ExprS(Call(Var(name), [Nil()])), Raise(Call(Var('Error'), [Str('boom%d' % uniq())])),
+                             ExprS(Call(Prop(Var(o), 'nomethod'), []))])
+            entries.append({'kind': 'runtime_error', 'stmts': [Fn(name, ['x'], body), fail],
+                            'file_stmts': [Fn(name, ['x'], body)]})
+            tags.add('define_then_fail')
+            for _ in range(r.randint(1, 3)):
+                o2, cl2 = r.choice(objs)
+                m2 = r.choice(['get', 'alt', 'neg', 'bump'])
+                entries.append({'kind': 'ok', 'stmts': [Print([Str('q%d' % uniq()), Call(Prop(Var(o2), m2), []),
+                                                               Prop(Var(o2), 'v')])]})
+                entries.append({'kind': 'ok', 'stmts': [Print([Str('q%d' % uniq()), Call(Var(name), [Var(o2)])])]})
+        elif c < 0.86:
             kind = r.choice(['raise', 'operator', 'call_nil'])
             if kind == 'raise':
                 st = [Raise(Call(Var('Error'), [Str('boom%d' % uniq())]))]
@@ -117,3 +137,88 @@ def case(rng):
             entries.append(probe())
     entries.append(probe())
     return {'entries': entries, 'tags': tags}
+
+
+def chan_case(rng, kinds=('producer', 'producer', 'echo', 'accumulate')):
+    """sessions whose fibers live across prompt lines: launched on one line, communicated with on later lines.
+    No model: the oracle is the same lines run as one file. Every channel has one sender and main is the only
+    receiver (or the reverse), workers never print, so the printed values do not depend on scheduling."""
+    r = rng
+    lines = []
+    tags = set()
+    u = [0]
+
+    def uniq():
+        u[0] += 1
+        return u[0]
+    pending = []          # (channel, count) receives main still owes
+    filler_vars = []
+
+    def filler():
+        c = r.random()
+        if c < 0.4:
+            n = 'u%d' % uniq()
+            filler_vars.append(n)
+            lines.append('let %s = %d + %d;' % (n, uniq(), uniq()))
+        elif c < 0.7 and filler_vars:
+            lines.append('print("f", %s);' % r.choice(filler_vars))
+        else:
+            lines.append('print("f%d");' % uniq())
+    for k in range(r.randint(1, 4)):
+        ch = 'ch%d' % uniq()
+        cap = r.choice(['', '1', '2', '5'])
+        kind = r.choice(list(kinds))
+        tags.add('chan:' + kind)
+        lines.append('let %s = chan(%s);' % (ch, cap))
+        for _ in range(r.randint(0, 2)):
+            filler()
+        if kind == 'producer':
+            n = r.randint(1, 4)
+            w = 'w%d' % uniq()
+            lines.append('fn %s(a) { %s }' % (w, ' '.join('%s <- a * %d + %d;' % (ch, i + 2, uniq()) for i in range(n))))
+            for _ in range(r.randint(0, 2)):
+                filler()
+            lines.append('launch %s(%d);' % (w, uniq()))
+            pending.append((ch, n))
+        elif kind == 'echo':
+            out = 'out%d' % uniq()
+            lines.append('let %s = chan(%s);' % (out, r.choice(['', '1'])))
+            w = 'w%d' % uniq()
+            n = r.randint(1, 3)
+            lines.append('fn %s() { for i in %d.times() { %s <- (<-%s) + %d; } }' % (w, n, out, ch, uniq()))
+            lines.append('launch %s();' % w)
+            for i in range(n):
+                for _ in range(r.randint(0, 2)):
+                    filler()
+                lines.append('%s <- %d;' % (ch, uniq()))
+                if r.random() < 0.5:
+                    filler()
+                lines.append('print("e", <-%s);' % out)
+        else:
+            w = 'w%d' % uniq()
+            n = r.randint(2, 4)
+            res = 'res%d' % uniq()
+            lines.append('let %s = chan(%s);' % (res, r.choice(['', '1'])))
+            lines.append('fn %s() { let t = 0; for i in %d.times() { t = t + (<-%s); } %s <- t; }' % (w, n, ch, res))
+            lines.append('launch %s();' % w)
+            for i in range(n):
+                if r.random() < 0.5:
+                    filler()
+                lines.append('%s <- %d;' % (ch, uniq()))
+            pending.append((res, 1))
+        # pay some of the owed receives now, the rest later
+        r.shuffle(pending)
+        while pending and r.random() < 0.6:
+            ch2, cnt = pending.pop()
+            for i in range(cnt):
+                if r.random() < 0.4:
+                    filler()
+                lines.append('print("r", <-%s);' % ch2)
+    while pending:
+        ch2, cnt = pending.pop()
+        for i in range(cnt):
+            if r.random() < 0.4:
+                filler()
+            lines.append('print("r", <-%s);' % ch2)
+    lines.append('print("end");')
+    return {'lines': lines, 'tags': tags}
